@@ -1284,8 +1284,17 @@ impl ThreadInternal for Thread {
             // Only the top level frame left means that the thread has finished
             return Err(Error::Dead).into();
         }
-        context = ready!(context.execute(cx))?.expect("Resume called on the top frame");
-        Ok(context).into()
+        match ready!(context.execute(cx)) {
+            Ok(context) => Ok(context.expect("Resume called on the top frame")).into(),
+            Err(err) => {
+                // The thread has failed: unwind its stack so that it is dead instead of half way
+                // through a call if it is resumed again
+                let mut context = self.owned_context();
+                let stack = StackFrame::<State>::current(&mut context.stack);
+                let _ = reset_after_error(self, &err, stack, 1, None);
+                Err(err).into()
+            }
+        }
     }
 
     fn deep_clone_value(&self, owner: &Thread, value: &Value) -> Result<RootedValue<&Thread>> {
